@@ -329,6 +329,9 @@ m("C02-r8", "C02", "libwallet/src/internal/selection.rs", "\t\t\tif coin.status 
 m("C07-r6", "C07", "impls/src/backends/lmdb.rs", "\t\tlet mut deriv_idx = {\n\t\t\tlet batch = self.db.batch()?;\n\t\t\tlet deriv_key = to_key(DERIV_PREFIX, &mut parent_key_id.to_bytes().to_vec());", "\t\tlet mut deriv_idx = {\n\t\t\tlet batch = self.db.batch()?;\n\t\t\tlet deriv_key = to_key(DERIV_PREFIX, &mut self.parent_key_id.to_bytes().to_vec());", "C07.R6")
 m("C03-r9", "C03", "libwallet/src/internal/tx.rs", "\t\tif t.tx_type == TxLogEntryType::TxSent && !is_invoiced {\n\t\t\ttx = Some(t);\n\t\t\tbreak;\n\t\t}\n\t\tif t.tx_type == TxLogEntryType::TxReceived && is_invoiced {", "\t\tif (t.tx_type == TxLogEntryType::TxReceived) == is_invoiced {", "C03.R9")
 
+m("C05-r9", "C05", "src/cmd/wallet_args.rs", "pub fn parse_cancel_args(args: &ArgMatches) -> Result<command::CancelArgs, ParseError> {\n\tlet mut tx_id_string = \"\";\n\tlet tx_id = match args.value_of(\"id\") {\n\t\tNone => None,\n\t\tSome(tx) => Some(parse_u32(tx, \"id\")?),", "pub fn parse_cancel_args(args: &ArgMatches) -> Result<command::CancelArgs, ParseError> {\n\tlet mut tx_id_string = \"\";\n\tlet tx_id = match args.value_of(\"id\") {\n\t\tNone => None,\n\t\tSome(tx) => Some(parse_u64(tx, \"id\")? as u32),", "C05.R9")
+m("C19-r7", "C19", "src/cmd/wallet_args.rs", "pub fn parse_txs_args(args: &ArgMatches) -> Result<command::TxsArgs, ParseError> {\n\tlet tx_id = match args.value_of(\"id\") {\n\t\tNone => None,\n\t\tSome(tx) => Some(parse_u32(tx, \"id\")?),", "pub fn parse_txs_args(args: &ArgMatches) -> Result<command::TxsArgs, ParseError> {\n\tlet tx_id = match args.value_of(\"id\") {\n\t\tNone => None,\n\t\tSome(tx) => Some(parse_u64(tx, \"id\")? as u32),", "C19.R7")
+
 
 def for_property(prop):
     return [x for x in M if x["property"] == prop]
